@@ -4,6 +4,7 @@ import itertools
 ID = "C04"
 LEVEL = "proof"
 HARNESSES = [{"name": "main", "src": "harness.cpp", "flags": ["-O0", "-DTETL_ENABLE_CONTRACT_CHECKS=1"]},
+             {"name": "consteval", "src": "consteval.cpp", "flags": ["-O0", "-DTETL_ENABLE_CONTRACT_CHECKS=1"]},
              {"name": "O2", "src": "harness.cpp", "flags": ["-O2", "-DTETL_ENABLE_CONTRACT_CHECKS=1"], "thorough_only": True}]
 
 NPOS = 2**64 - 1
@@ -22,7 +23,8 @@ RULE = ("histories: (i) exhaustive single operations (clear, push_back, pop_back
         "histories (length <= 30, capacity-aware with deliberate overflows) on capacities 0,1,7,15,16,31,255,256 "
         "(char) and the compiled wchar_t/char32_t/char16_t/char8_t instantiations; after EVERY step size(), "
         "data()[size()], the contents and the returned iterator/count are compared; for a sample of them (capacity <= 31) "
-        "additionally the RAW storage (all Capacity+1 characters incl. the tiny layout's size byte and the stale "
+        "a block 'fill, shrink through every shrinking operation, grow through every appending/inserting overload' "
+        "(stale characters behind the end) on eight configurations; additionally the RAW storage (all Capacity+1 characters incl. the tiny layout's size byte and the stale "
         "characters behind size()) is compared with the model's array after every step (histb). queries: the six search members with explicit and default position, compare, "
         "compare(pos1,n1,str,pos2,n2), copy, replace on every content of length <= 3 x needle of length <= 2 x "
         "pos in {0..len+1, npos}; compare/compare5/search again on every pair of contents of length <= 2 over the full "
@@ -469,8 +471,27 @@ def gen(tier, rng):
                      f"sw {L([98])}", f"rs {cap} 99", f"rs {cap - 1} 99", "pb 98", "af 1 98", f"if 0 1 98",
                      f"erng 0 {cap}", f"sub {cap} 1", f"ip {cap} {L([97])} 0"]:
             out.append(hist("c", cap, [f"af {cap} 97", tail, "af 1 100"]))
+    for ck, cap in [("c", 7), ("c", 16), ("w", 15), ("w", 16), ("u", 3), ("s", 15), ("b", 16), ("c", 255)]:
+        gen_stale(ck, cap, out)
     add_raw(out, rng, 0.2 if quick else 0.5)
     return out
+
+
+def gen_stale(ck, cap, out):
+    """stale characters behind the end: fill, shrink through every shrinking operation, then grow through every
+    appending / inserting overload — the terminator must be rewritten at the new size() each time"""
+    al = ALPHA[ck]
+    a, b = al[0], al[1]
+    full = [a, b, a, b, a][:min(5, cap)]
+    shrinks = ["rs 1 120", "rs0 2", f"er 1 {NPOS}", "pop", "sub 0 1", "erp 0", "clear", "erng 0 2", f"fer {a}", "fei 0",
+               f"asp {L([b])} 1", f"sw {L([b])}"]
+    grows = [f"af 1 {b}", f"ap {L([b, a])} 1", f"ar {L([b])}", f"acs {L([b])}", f"ast {L([b])}", f"pes {L([b])}",
+             f"pec {b}", f"plc {b}", f"av {L([b])}", f"avs {L([a, b])} 1 1", f"ass {L([a, b])} 1 1", f"ip 0 {L([b])} 1",
+             f"if 0 1 {b}", f"ics 0 {L([b])}", f"iss 0 {L([a, b])} 1 1", f"pb {b}", f"pls {L([b])}", f"plz {L([b])}",
+             f"ist 0 {L([b])}", f"iv 0 {L([b])}"]
+    for sh in shrinks:
+        for g in grows:
+            out.append(hist(ck, cap, [f"asp {L(full)} {len(full)}", sh, g]))
 
 
 def add_raw(out, rng, frac):
